@@ -852,7 +852,35 @@ func c05TransportGoroutines(c *Ctx) {
 					c.R.Unknown(key, c.ipos(g), "goroutine body is not statically known")
 					continue
 				}
-				probs, wit := an.TerminationWitness(callee, nil)
+				// the body and the transport functions it calls directly (a wrapper literal around c.keepAlive is still keepAlive's loop)
+				bodies := []*ssa.Function{callee}
+				seenBody := map[*ssa.Function]bool{callee: true}
+				for i := 0; i < len(bodies) && i < 16; i++ {
+					for _, b2 := range bodies[i].Blocks {
+						for _, x := range b2.Instrs {
+							call, ok := x.(ssa.CallInstruction)
+							if !ok {
+								continue
+							}
+							if _, isGo := x.(*ssa.Go); isGo {
+								continue
+							}
+							sc := call.Common().StaticCallee()
+							if sc == nil || sc.Pkg == nil || sc.Pkg != callee.Pkg || len(sc.Blocks) == 0 || seenBody[sc] {
+								continue
+							}
+							seenBody[sc] = true
+							bodies = append(bodies, sc)
+						}
+					}
+				}
+				var probs, wit []string
+				for _, body := range bodies {
+					p2, w2 := an.TerminationWitness(body, nil)
+					probs = append(probs, p2...)
+					wit = append(wit, w2...)
+				}
+				probs, wit = dedupStrings(probs), dedupStrings(wit)
 				var rest []string
 				note := ""
 				for _, p := range probs {
@@ -864,13 +892,15 @@ func c05TransportGoroutines(c *Ctx) {
 				}
 				// ticker discipline: a goroutine that selects on ticker.C stops that ticker on its exit path (or defers Stop)
 				tick, stop := false, false
-				for _, b2 := range callee.Blocks {
-					for _, x := range b2.Instrs {
-						if fa, ok := x.(*ssa.FieldAddr); ok && fieldNameOf(fa) == "C" && an.NamedIs(fa.X.Type(), "time", "Ticker") {
-							tick = true
-						}
-						if call, ok := x.(ssa.CallInstruction); ok && an.CalleeOf(call).FullName() == "(*time.Ticker).Stop" {
-							stop = true
+				for _, body := range bodies {
+					for _, b2 := range body.Blocks {
+						for _, x := range b2.Instrs {
+							if fa, ok := x.(*ssa.FieldAddr); ok && fieldNameOf(fa) == "C" && an.NamedIs(fa.X.Type(), "time", "Ticker") {
+								tick = true
+							}
+							if call, ok := x.(ssa.CallInstruction); ok && an.CalleeOf(call).FullName() == "(*time.Ticker).Stop" {
+								stop = true
+							}
 						}
 					}
 				}
@@ -1028,4 +1058,16 @@ func mirrorOp(op token.Token) token.Token {
 		return token.LEQ
 	}
 	return op
+}
+
+func dedupStrings(in []string) []string {
+	seen := map[string]bool{}
+	var out []string
+	for _, s := range in {
+		if !seen[s] {
+			seen[s] = true
+			out = append(out, s)
+		}
+	}
+	return out
 }
